@@ -323,6 +323,13 @@ void mon_c05(CaseCtx &c, Rng &rng){
     if (mode == 0){ run_exactness(c, rng, false, true); return; }
     GenOpts go; go.max_points = c.thorough ? 500 : 200; go.max_dims = 3; go.min_outs = 1; go.max_outs = 3; go.conformal = false; go.custom = true; go.max_depth = 8;
     Cfg cfg = gen_cfg(rng, go);
+    if (mode == 2 && cfg.ta.empty()){ // the chain rule needs a transform
+        cfg.ta.resize((size_t) cfg.dims); cfg.tb.resize((size_t) cfg.dims);
+        for(int j=0; j<cfg.dims; j++){
+            if (cfg.family == fam_global && is_unbounded(cfg.rule)){ cfg.ta[(size_t) j] = rng.uni(-3.0, 3.0); cfg.tb[(size_t) j] = std::exp(rng.uni(-2.0, 2.0)); }
+            else{ double ce = rng.uni(-5.0, 5.0), hf = std::exp(rng.uni(-3.0, 3.0)); cfg.ta[(size_t) j] = ce - hf; cfg.tb[(size_t) j] = ce + hf; }
+        }
+    }
     TasmanianSparseGrid g;
     std::string err;
     if (!make_grid(g, cfg, go.max_points, &err) || g.getNumPoints() == 0){ emit_begin(c, cfg.json()); c.inconc("make-failed"); return; }
